@@ -16,6 +16,13 @@ CHECKS = {
             'The model definitions are the ones the driver executes against the real classes on generated sequences each run.',
             'The floating-point error clause is checked as a test (float_probe against the exact rational batch statistic), not proved.',
             'DESIGN.md §6 C05'),
+    'C06': ('Lean 4 proof (pooled-merge algebra, induction over merge trees) over the executable model; model-vs-code correspondence on random partitions and merge orders',
+            'Theorems: merge (run xs) (run ys) = run (xs ++ ys) as states for Counter/Min/Max/Mean/Variance/Cov2 over every field of '
+            'characteristic 0, including empty operands on either side; every binary merge tree over every partition equals one run over '
+            'the concatenation; non-mergeable kinds return NotImplementedError with the receiver unchanged. The pinned-tree counterexamples '
+            '(ZeroDivisionError / TypeError on empty operands) are proved about the pre-fix model and were replayed on the real code.',
+            'Float bounds of merges are tested, not proved. "other is unchanged" is checked on the implementation (read before/after) and carried by the store model of C11.',
+            'DESIGN.md §6 C06'),
 }
 
 
